@@ -317,8 +317,11 @@ def run_history(kind, hist, acc, via_ctor=False):
         name = node.name
         pool = set(in_orig) | set(FRESH) | set(out_orig) | set(FRESH_OUT)
     from ..dsl import touch
+    import copy as _copy
 
+    lineage = []  # (node, input model, output model, name) of every ancestor of the final node
     for bi, (attr, mapping) in enumerate(hist):
+        lineage.append((node, _copy.deepcopy(mi), _copy.deepcopy(mo), name))
         try:
             touch(node)  # the receiver has been used before each rename
             if attr == "inputs":
@@ -340,6 +343,34 @@ def run_history(kind, hist, acc, via_ctor=False):
         vs += [(s, f"after batch {bi + 1}: {m}") for s, m in st]
         if st:
             break
+    if not vs and lineage:
+        # relatives: (1) a sibling derived LATER from the final node's parent (every input name moved to another legal name in one
+        # call) and a child derived from the final node itself must not change what the final node does; (2) every ancestor still
+        # answers according to ITS OWN history, and the root still computes what it computed before anything was derived from it
+        par, pmi, _, _ = lineage[-1]
+        for base, model in ((par, pmi), (node, mi)):
+            cur = list(model.names)
+            alts = [b for b in batches(cur) if len(b) == len(cur)] or batches(cur)
+            if alts:
+                try:
+                    base.with_inputs(dict(alts[0]))
+                except Exception:  # noqa: BLE001 - the decoy is optional
+                    pass
+        for ai, (anc, ami, amo, aname) in enumerate(lineage):
+            try:
+                st = check_static(kind, anc, ami, amo, aname, pool)
+            except Exception as e:  # noqa: BLE001
+                st = [("lookup-raised", f"{type(e).__name__}: {e}")]
+            vs += [("ancestor-changed-by-derivation", f"the node as it was before batch {ai + 1} no longer answers according to its own history after relatives were derived from it: {m}") for _, m in st[:1]]
+            if st:
+                break
+        if not vs:
+            anc, ami, amo, _ = lineage[0]
+            try:
+                ev = check_exec(kind, anc, ami, amo, h)
+            except Exception as e:  # noqa: BLE001
+                ev = [("x", f"{type(e).__name__}: {str(e)[:150]}")]
+            vs += [("ancestor-changed-by-derivation", f"running the ORIGINAL node after relatives were derived from it: {m}") for _, m in ev[:1]]
     if not vs:
         try:
             vs += check_exec(kind, node, mi, mo, h)
